@@ -279,8 +279,16 @@ def _main(argv=None):
     tmo = cfg.get("timeout", {}).get(args.tier, 1500 if args.tier == "quick" else 7200)
     res, hinfo = run_harness(pid, args.tier, seed, mode=mode, timeout=tmo)
     if res is None:
+        if hinfo.get("timeout"):
+            print(f"harness for {pid} timed out: {hinfo}", file=sys.stderr)
+            return 2
+        # The correspondence check could not be carried out against this source (the harness, which drives the real
+        # code, ended with an exception): the correspondence no longer checks.  Reported like any other broken
+        # obligation for which no failing input was produced; the traceback goes into the replay.
         print(f"harness for {pid} did not produce a result: {hinfo}", file=sys.stderr)
-        return 2
+        res = {"property": pid, "evaluations": 0, "distinct_nontrivial": 0, "rule": "(the harness ended with an exception before producing a result)",
+               "samples": [], "violations": [], "correspondence_failures": [{"stream": "harness-run", "detail": {"error": (hinfo.get("stderr") or "")[-2500:]}, "explained_by": None}],
+               "distribution": {}, "correspondence": {}, "traces_validated": 0, "assumptions": [], "exhaustive": None, "wall_s": hinfo.get("wall_s", 0)}
 
     known = load_known()
     known_keys = {(k["property"], k["key"]): k for k in known.get("findings", [])}
